@@ -100,6 +100,21 @@ def build_hypergraph(case):
             e = permuted(recs[p % len(recs)], p)
             h.add_edge(tuple(e), **({"weight": 1} if weighted else {}))
             trace.append("add_edge(%r) again" % (tuple(e),))
+    # hyperedges that (also) reach their node set through a keep_edges=True node removal:
+    # e + {Z} is inserted next to e, then Z is removed and the shrunk hyperedge merges into e
+    shr = case.get("shrunk") or []
+    if shr and recs:
+        kind = case["universe"]["kind"]
+        pool = list(range(len(U), len(U) + 3)) if kind == "range" else (
+            S.INT_POOL if kind == "ints" else S.STR_POOL)
+        Z = next((x for x in pool if x not in U), None)
+        if Z is not None:
+            for p in shr:
+                e = recs[p % len(recs)]
+                h.add_edge(tuple(e) + (Z,), **({"weight": 4} if weighted else {}))
+                trace.append("add_edge(%r)" % (tuple(e) + (Z,),))
+            h.remove_node(Z, keep_edges=True)
+            trace.append("remove_node(%r, keep_edges=True)" % (Z,))
     for i in case["isolated"]:
         n = U[i % len(U)]
         h.add_node(n)
@@ -479,6 +494,9 @@ def hypergraph_cases(tier):
         "removed": st.lists(node_lists, max_size=2),
         "again": st.lists(st.integers(0, 30), max_size=2),
         "isolated": st.lists(idx, max_size=2),
+        # in one case out of three some hyperedges are (also) reached by shrinking e+{Z}
+        "shrunk": st.integers(0, 2).flatmap(
+            lambda i: st.just([]) if i else st.lists(st.integers(0, 30), min_size=1, max_size=3)),
     })
 
 
